@@ -622,6 +622,9 @@ class Gen:
                     spec[n] = {"static": r.choice(a["m"])}
                 else:
                     fn = r.choice(["const", "suffix", "identity", "upper"])
+                    if fn == "upper" and self.cfg["storage"] == "csv" and \
+                            not self.effective_encoding().startswith("utf"):
+                        fn = "identity"  # upper() may leave the code page
                     s = {"fn": fn}
                     if fn == "const":
                         s["arg"] = r.choice(a["m"])
@@ -636,6 +639,10 @@ class Gen:
                     fn = r.choice(["merge_const", "only_const", "identity",
                                    "empty", "upper_values", "none_values",
                                    "inplace_merge"])
+                    if fn == "upper_values" and self.cfg["storage"] == \
+                            "csv" and not self.effective_encoding(
+                            ).startswith("utf"):
+                        fn = "identity"
                     s = {"fn": fn}
                     if fn in ("merge_const", "only_const", "inplace_merge"):
                         s["arg"] = d
